@@ -146,8 +146,9 @@ def r3(ctx):
         rows, site = effects(ctx, name)
         for r in rows:
             want_post = table.get(r["pre"], table.get(None))
-            post = r["writes"][-1] if r["writes"] else None
-            ok = post == flag(want_post) and len(r["writes"]) == 1
+            # no write leaves the override as it was (only decidable when the path knows what it was)
+            post = r["writes"][-1] if r["writes"] else (flag(r["pre"]) if r["pre"] is not None else None)
+            ok = post == flag(want_post) and len(r["writes"]) <= 1
             ctx.ob(f"{name}[{r['pre']}] local", ok, f"{name} (override {r['pre']}) leaves the local override {T.show(post) if post else 'untouched'}, expected {want_post}",
                    site=site, sample={"pre": r["pre"], "post": T.show(post) if post else None})
             if atomic is None:
@@ -158,7 +159,7 @@ def r3(ctx):
                        sample={"atomic": ops})
                 # order: own override first, then the global flag
                 kinds = [t[0] for t in r["trace"] if t[0] in ("cell_set", "atomic")]
-                ctx.ob(f"{name}[{r['pre']}] order", kinds == ["cell_set", "atomic"], f"{name}: effects occur in order {kinds}", site=site)
+                ctx.ob(f"{name}[{r['pre']}] order", kinds in (["cell_set", "atomic"], ["atomic"]), f"{name}: effects occur in order {kinds}; the own override is settled before the global flag", site=site)
         if len(table) == 3:
             ctx.floor(f"{name}: override cases", len(rows), 3)
     rows, site = effects(ctx, "local_take")
@@ -194,9 +195,21 @@ def r3(ctx):
                     users_g.add(b.get("owner", k))
                 if o.get("from") == LOCAL or o.get("uneval") == LOCAL:
                     users_l.add(b.get("owner", k))
-    ctx.ob("who-references IS_ENABLED", users_g <= allowed_global and len(users_g) >= 4, f"IS_ENABLED is referenced by {sorted(users_g - allowed_global)} besides enable/disable/toggle/is_enabled",
+    callers = P.callers()
+
+    def via_allowed(k, allowed, depth=0):
+        """an allowed function, or a non-public helper called only from such functions (its effect is analysed inlined there)"""
+        if k in allowed:
+            return True
+        if depth > 3 or P.fns.get(k, {}).get("vis") == "pub":
+            return False
+        cs = {c_ for c_, _ in callers.get(k, [])}
+        return bool(cs) and all(via_allowed(c_, allowed, depth + 1) for c_ in cs)
+    stray_g = {k for k in users_g if not via_allowed(k, allowed_global)}
+    stray_l = {k for k in users_l if not via_allowed(k, allowed_local)}
+    ctx.ob("who-references IS_ENABLED", not stray_g and len(users_g) >= 1, f"IS_ENABLED is referenced by {sorted(stray_g)} besides enable/disable/toggle/is_enabled",
            sample=sorted(users_g))
-    ctx.ob("who-references LOCAL_ENABLED", users_l <= allowed_local and len(users_l) >= 6, f"LOCAL_ENABLED is referenced by {sorted(users_l - allowed_local)} besides the local_* functions",
+    ctx.ob("who-references LOCAL_ENABLED", not stray_l and len(users_l) >= 1, f"LOCAL_ENABLED is referenced by {sorted(stray_l)} besides the local_* functions",
            sample=sorted(users_l))
     # every use of the key is LocalKey::with with a non-reference result
     n = 0
@@ -208,7 +221,7 @@ def r3(ctx):
                 r_ty = fa.rsplit(", ", 1)[-1].rstrip(">")
                 ok = "::with::<" in fa and not r_ty.startswith("&") and "*" not in r_ty
                 ctx.ob(f"with-call in {k.rsplit('::',1)[1]}", ok, f"{k} accesses the thread-local through {fa[:120]}", site=t.get("sp"), sample={"result type": r_ty})
-    ctx.floor("LocalKey::with call sites", n, 6)
+    ctx.floor("LocalKey::with call sites", n, max(1, len(users_l)))
 
 
 @rule("C20.R4", "at most one atomic operation per public function and path; toggle is one read-modify-write")
